@@ -155,6 +155,26 @@ def prune(rng, t, k):
     return t
 
 
+def refine(rng, gname, t, tries=6):
+    """A tree derived from t the way the solver refines trees: one nonterminal node (open or not, possibly
+    the root) gets a new random derivation, the node keeps its id and DerivationTree.replace_path keeps the
+    ids of all its ancestors - so the result has the SAME ROOT ID as t but other content.  None if no
+    structurally different tree was found."""
+    cands = [(p, n) for p, n in t.paths() if is_nonterminal(n.value)]
+    for _ in range(tries):
+        p, n = rng.choice(cands)
+        new = rand_deriv(rng, gname, n.value, rng.randint(1, 2), open_prob=rng.choice([0, .3]),
+                         eps_fuzzer=rng.random() < .5)
+        if new.children is None and n.children is None:
+            continue
+        sub = T(new.value, new.children, id=n.id)
+        t2 = sub if not p else t.replace_path(p, sub)
+        if not t2.structurally_equal(t) and len(t2.paths()) <= 45:
+            assert t2.id == t.id
+            return t2
+    return None
+
+
 def tree_json(t):
     return [t.value, t.id, None if t.children is None else [tree_json(c) for c in t.children]]
 
@@ -232,22 +252,23 @@ class Enc:
             return f"(Lf {self.sym(t.value)} {nid})"
         return f"(Nd {self.sym(t.value)} {nid} [{'; '.join(kids)}])"
 
-    def define(self, t):
-        """name every node of an input tree (host / ins), children first"""
-        name = f"n{t.id}"
-        kids = [self.define(c) for c in t.children or ()]
-        self.orig[t.id] = t
+    def define(self, t, tag=0):
+        """name every node of an input tree (host / ins), children first; `tag` = record index: trees of
+        different records may share ids (a later tree derived from an earlier one by replace_path)"""
+        name = f"n{tag}_{t.id}"
+        kids = [self.define(c, tag) for c in t.children or ()]
+        self.orig[(tag, t.id)] = t
         self.defs.append(f"Definition {name} := {self.node(t, t.id, kids)}.")
         return name
 
-    def enc(self, r, keep):
+    def enc(self, r, keep, tag=0):
         """(literal, unchanged?) of an output tree; ids outside `keep` are fresh -> 0"""
-        o = self.orig.get(r.id) if r.id in keep else None
-        ks = [self.enc(c, keep) for c in r.children or ()]
+        o = self.orig.get((tag, r.id)) if r.id in keep else None
+        ks = [self.enc(c, keep, tag) for c in r.children or ()]
         if (o is not None and o.value == r.value and (o.children is None) == (r.children is None)
                 and len(o.children or ()) == len(ks)
                 and all(k[1] and oc.id == c.id for k, oc, c in zip(ks, o.children or (), r.children or ()))):
-            return f"n{r.id}", True
+            return f"n{tag}_{r.id}", True
         return self.node(r, r.id if r.id in keep else 0, [k[0] for k in ks]), False
 
     def text(self):
@@ -305,7 +326,8 @@ def run(run):
         "that look like nonterminals: <hr />, <a b>, <c d>, <br />, < >, <, >, <a as siblings in recursive expansions); hosts = random "
         "derivations from <start> (depth 2..6, both epsilon shapes), closed or with 1..3 inner nodes pruned to open "
         "leaves keeping ids; inserted trees = random derivations of a random nonterminal (closed or 30% open leaves); "
-        "insert_tree called with the real GrammarGraph, max_num_solutions in {2,5,10,50}, for ALL 7 non-empty method "
+        "each base pair is followed in the SAME process by a derived pair (inserted tree refined by replace_path: same root id, "
+        "other content; host refined half of the time), as the solver does; insert_tree called with the real GrammarGraph, max_num_solutions in {2,5,10,50}, for ALL 7 non-empty method "
         "masks; every returned tree goes through insertedb (proved = spec) in Coq, and the whole result list is "
         "compared with the Gallina model insert_tree; negative controls (a real result with one look-alike terminal leaf "
         "turned into an open leaf) must be rejected. non-trivial = host has >=3 nodes and the inserted root symbol "
@@ -339,28 +361,23 @@ def run(run):
             run.known(e["what"])
 
     # ---- 1. generated calls of insert_tree ----
-    npairs = 420 if thorough else 98
-    per_shard = 7   # 14 pairs per grammar -> 14 coqc processes (+7 for path_to_tree), run concurrently
+    npairs = 280 if thorough else 49     # base pairs; each is followed by `chain_len` derived pairs
+    chain_len = 2 if thorough else 1
+    per_shard = 14  # quick: 14 records per grammar -> 7 coqc processes (+7 for path_to_tree) = one wave on 16 cores
     by_grammar = collections.defaultdict(list)   # gname -> list of pair records
     hist = collections.Counter()
     calls = 0
     impl_problems = []    # python-side verdicts, cross-checked with Coq below
-    for it in range(npairs):
-        gname = list(GRAMMARS)[it % len(GRAMMARS)]
+    def do_calls(gname, host, ins, maxn, prev):
+        """all 7 masks on one (host, ins); `prev` = the record this pair was derived from (same process,
+        same GrammarGraph object: module-level state of the implementation carries over)"""
+        nonlocal calls
         cg, graph = CANON[gname], graphs[gname]
-        host = rand_deriv(rng, gname, "<start>", rng.randint(2, 6), eps_fuzzer=rng.random() < .5)
-        host = prune(rng, host, rng.choice([0, 0, 1, 2, 3]))
-        if len(host.paths()) > 45:
-            host = prune(rng, rand_deriv(rng, gname, "<start>", 3), rng.choice([0, 1, 2]))
-        nt = rng.choice([k for k in cg if k != "<start>"])
-        ins = rand_deriv(rng, gname, nt, rng.randint(1, 3), open_prob=rng.choice([0, .3]),
-                         eps_fuzzer=rng.random() < .5)
-        maxn = rng.choice([2, 5, 5, 10, 10, 50])
         keep = {s.id for t in (host, ins) for _, s in t.paths()}
         nt_case = nontrivial(graph, host, ins)
         hist["host_open" if host.is_open() else "host_closed"] += 1
         hist["ins_open" if ins.is_open() else "ins_closed"] += 1
-        rec = {"g": gname, "host": host, "ins": ins, "max": maxn, "outs": {}, "neg": {}}
+        rec = {"g": gname, "host": host, "ins": ins, "max": maxn, "outs": {}, "neg": {}, "prev": prev}
         for m in range(1, 8):
             o = impl_insert(cg, graph, ins, host, maxn, m)
             calls += 1
@@ -371,6 +388,8 @@ def run(run):
             else:
                 hist[f"results_m{m}"] += len(o[1])
                 hist["calls_with_results" if o[1] else "calls_without_results"] += 1
+                if prev is not None:
+                    hist[f"derived_results_m{m}"] += len(o[1])
                 if gname in LOOKALIKE_GRAMMARS:
                     hist[f"lookalike_grammar_calls_m{m}"] += 1
                     with_la = [r for r in o[1] if any(lookalike(n.value) for _, n in r.paths())]
@@ -381,10 +400,40 @@ def run(run):
                             rec["neg"][m] = neg
         rec["keep"] = keep
         by_grammar[gname].append(rec)
+        return rec
+
+    for it in range(npairs):
+        gname = list(GRAMMARS)[it % len(GRAMMARS)]
+        cg = CANON[gname]
+        host = rand_deriv(rng, gname, "<start>", rng.randint(2, 6), eps_fuzzer=rng.random() < .5)
+        host = prune(rng, host, rng.choice([0, 0, 1, 2, 3]))
+        if len(host.paths()) > 45:
+            host = prune(rng, rand_deriv(rng, gname, "<start>", 3), rng.choice([0, 1, 2]))
+        nt = rng.choice([k for k in cg if k != "<start>"])
+        ins = rand_deriv(rng, gname, nt, rng.randint(1, 3), open_prob=rng.choice([0, .3, .3]),
+                         eps_fuzzer=rng.random() < .5)
+        maxn = rng.choice([2, 5, 5, 10, 10, 50])
+        rec = do_calls(gname, host, ins, maxn, None)
         if it < 3:
             run.sample({"grammar": gname, "host": str(host), "host_open": host.is_open(), "ins": str(ins),
                         "ins_root": ins.value, "max": maxn,
                         "n_results_by_mask": {m: (len(o[1]) if o[0] == "ok" else o[1]) for m, o in rec["outs"].items()}})
+        # stateful stream: the next call's inserted tree (and, half of the time, host) is a refinement of this
+        # call's, with the same ids (root id of the inserted tree unchanged, content changed)
+        for step in range(chain_len):
+            ins2 = refine(rng, gname, rec["ins"])
+            if ins2 is None:
+                hist["refine_failed"] += 1
+                break
+            host2 = rec["host"]
+            if rng.random() < .5:
+                host2 = refine(rng, gname, host2) or host2
+            hist["derived_pairs"] += 1
+            hist["derived_same_host" if host2 is rec["host"] else "derived_refined_host"] += 1
+            rec = do_calls(gname, host2, ins2, maxn, rec)
+            if hist["derived_pairs"] <= 2:
+                run.sample({"grammar": gname, "derived_from_previous_call": True, "host": str(host2), "ins": str(ins2),
+                            "ins_root_id_kept": ins2.id == rec["prev"]["ins"].id, "prev_ins": str(rec["prev"]["ins"])})
     run.cov["insert_tree_calls"] = calls
     run.cov["histogram"] = dict(hist)
 
@@ -397,10 +446,10 @@ def run(run):
             rdefs = ""
             cs, ms = [], []
             for j, rec in enumerate(recs[k:k + per_shard]):
-                hn, inn = e.define(rec["host"]), e.define(rec["ins"])
+                hn, inn = e.define(rec["host"], j), e.define(rec["ins"], j)
                 for m, o in rec["outs"].items():
                     if o[0] == "ok":
-                        lit = "(Ok " + g_list([e.enc(r, rec["keep"])[0] for r in o[1]]) + ")"
+                        lit = "(Ok " + g_list([e.enc(r, rec["keep"], j)[0] for r in o[1]]) + ")"
                     else:
                         lit = f"(@Raise (list tree) {o[1]})"
                     rdefs += f"Definition R{j}_{m} : res (list tree) := {lit}.\n"
@@ -409,7 +458,7 @@ def run(run):
                         ms.append((mode, m, rec))
                     if m in rec["neg"]:
                         rdefs += (f"Definition N{j}_{m} : res (list tree) := "
-                                  f"(Ok [{e.enc(rec['neg'][m], rec['keep'])[0]}]).\n")
+                                  f"(Ok [{e.enc(rec['neg'][m], rec['keep'], j)[0]}]).\n")
                         cs.append(f"(3%nat, ({m}%nat, {rec['max']}%nat, {inn}, {hn}, N{j}_{m}))")
                         ms.append((3, m, rec))
             shards.append((e.text() + gdefs + rdefs, cs))
@@ -540,6 +589,12 @@ def run(run):
             if bad:
                 w["first_rejected"] = {"tree": tree_json(bad[0][0]), "str": str(bad[0][0]), "reasons": bad[0][1][2],
                                        "lossy_accepts": bad[0][1][1]}
+        hist_, q = [], rec.get("prev")
+        while q is not None:
+            hist_.append({"host": tree_json(q["host"]), "ins": tree_json(q["ins"]), "max": q["max"]})
+            q = q.get("prev")
+        if hist_:
+            w["history"] = hist_[::-1]   # earlier calls of the same process (all 7 masks each), oldest first
         if extra:
             w.update(extra)
         return w
@@ -642,6 +697,13 @@ def replay(path):
     graph = GrammarGraph.from_grammar(GRAMMARS[w["grammar"]])
     host, ins = tree_from_json(w["host"]), tree_from_json(w["ins"])
     T.next_id = max(T.next_id, 1 + max(s.id for t in (host, ins) for _, s in t.paths()))
+    # the calls that preceded the failing one in the same process (the implementation may keep state)
+    for h in w.get("history", []):
+        hh, hi = tree_from_json(h["host"]), tree_from_json(h["ins"])
+        for m in range(1, 8):
+            impl_insert(cg, graph, hi, hh, h.get("max", 50), m)
+    for m in range(1, w["methods"]):
+        impl_insert(cg, graph, ins, host, w.get("max", 50), m)
     o = impl_insert(cg, graph, ins, host, w.get("max", 50), w["methods"])
     if o[0] == "raise":
         print("impl raises", o[1], o[2])
